@@ -480,9 +480,63 @@ for V_k, V_i in V_d.items():
                     key=nm + ' ' + why, detail='create_dataset call differs %s' % why, loc=f.loc())
 
 
+def write_type_dispatch(ix, R):
+    """A write() that stores a constructor keyword only inside a chain of type tests must not leave numpy arrays out:
+    a component rebuilt from a file holds every sequence as the ndarray h5py returned, so `isinstance(v, (list, tuple))`
+    with no `else` silently drops the key on the second save.  (Catch-alls such as hasattr(v, '__len__'), an `else`, or
+    np.ndarray among the tested types are fine.)"""
+    n = 0
+    for c in ix.all_classes():
+        for f in c.methods.get('write', []):
+            for node in walk_no_nested(f.node):
+                if not isinstance(node, ast.If):
+                    continue
+                # head of a chain only
+                par_else = [p for p in walk_no_nested(f.node) if isinstance(p, ast.If) and p.orelse == [node]]
+                if par_else:
+                    continue
+                chain, cur = [], node
+                while True:
+                    chain.append(cur)
+                    if len(cur.orelse) == 1 and isinstance(cur.orelse[0], ast.If):
+                        cur = cur.orelse[0]
+                        continue
+                    break
+                has_else = bool(chain[-1].orelse)
+                tests = [x.test for x in chain]
+                if not all(isinstance(t, ast.Call) and unparse(t.func) in ('isinstance', 'hasattr') for t in tests):
+                    continue
+                writes = [w for x in chain for b in x.body for w in ast.walk(b) if isinstance(w, ast.Call) and
+                          isinstance(w.func, ast.Attribute) and w.func.attr in WRITERS and w.args and
+                          isinstance(w.args[0], ast.Constant)]
+                if not writes:
+                    continue
+                n += 1
+                site = f.site + '{' + str(writes[0].args[0].value) + '}'
+                stmt = 'a key written under a chain of type tests is written for numpy arrays too (what a reloaded component holds)'
+                catch_all = has_else or any(unparse(t.func) == 'hasattr' and len(t.args) == 2 and
+                                            unparse(t.args[1]) in ("'__len__'", "'__iter__'", "'shape'") for t in tests)
+                seq = [t for t in tests if unparse(t.func) == 'isinstance' and len(t.args) == 2 and
+                       any(nm in unparse(t.args[1]) for nm in ('list', 'tuple'))]
+                nd = any('ndarray' in unparse(t.args[1]) for t in tests if unparse(t.func) == 'isinstance' and len(t.args) == 2)
+                if seq and not catch_all and not nd:
+                    R.fail('1.write.types', 'TAB', site, stmt, 'sequence test %s has no ndarray / else' % unparse(seq[0]),
+                           '%s writes %r only when `%s` (or an earlier test) holds and has no else: a component rebuilt from a '
+                           'file holds the value as a numpy array, for which none of the tests is true, so the key is missing '
+                           'from the next file and the reload falls back to the constructor default' % (
+                               f.qualname, writes[0].args[0].value, unparse(seq[0])), f.loc(node))
+                else:
+                    R.ok('1.write.types', 'TAB', site, stmt, loc=f.loc(node))
+    if n < 1:
+        # none left is a legitimate state (the dispatch may have been replaced by an unconditional write, which 1.write sees)
+        R.note('1.write.types: no write() dispatches on the type of a value any more (one did in the reviewed tree)')
+
+
 def run(ix, R):
     with R.guard('1', 'TAB', 'taurex', 'writer/reader tables'):
         writer_reader(ix, R)
+    with R.guard('1.write.types', 'TAB', 'taurex', 'type dispatch in write()'):
+        write_type_dispatch(ix, R)
     api_obligations(ix, R, '2.api', [UH + '::get_klass_args', UH + '::load_generic_profile_from_hdf5',
                                      UH + '::load_model_from_hdf5', UH + '::load_chemistry_from_hdf5',
                                      UU + '::store_thing'], 'output / reload path')
